@@ -283,15 +283,16 @@ class C02(Prop):
         yield "VAR v " + (arg if arg else '""') + "\n" + cmd + " v"
 
     def corpus(self, tier):
-        out = []
+        inline, rest = [], []
         for cmd in self.CMDS:
             for arg in self.ARGS:
-                for f in self.forms(cmd, arg):
-                    out.append(comp(f))
+                fs = list(self.forms(cmd, arg))
+                inline.append(comp(fs[0]))
+                rest.extend(comp(f) for f in fs[1:])
         if tier != "thorough":
             r = random.Random(7)
-            out = r.sample(out, 1200)
-        return out
+            rest = r.sample(rest, 900)
+        return inline + rest
 
     def generate(self, rng, n, tier):
         cases = []
